@@ -40,6 +40,7 @@ type Batch struct {
 	Incon       []string            `json:"incon,omitempty"`
 	Calls       int64               `json:"calls"`
 	ArgEvents   int64               `json:"arg_events"`
+	MidPoisons  int64               `json:"mid_poisons"`
 	EmitEvents  int64               `json:"emit_events"`
 	SchedStates int64               `json:"sched_states"`
 	ByTag       map[string]int      `json:"by_tag"`
@@ -667,6 +668,7 @@ func account(b *Batch, distinct map[string]map[uint64]struct{}, e *rt.Entry, sc 
 	calls := x.Calls()
 	b.Calls += int64(len(calls))
 	b.ArgEvents += int64(len(x.Args()))
+	b.MidPoisons += x.MidPoisons.Load()
 	b.EmitEvents += int64(len(x.Emits()))
 	b.SchedStates += x.SchedStates()
 	lim := limitOf(effConc(e.Prog, sc))
